@@ -24,17 +24,25 @@ RULE = ("T1: Pre, catch(Inner, Catcher, Recovery), Post with Inner in {throw(B);
         "builtin errors, 7 catchers, 5 recoveries, 5 posts (incl. a later throw and a later catch); T2: Pre, setup_call_cleanup(S, G, log(c)), Post (optionally "
         "inside catch/3, \\+, findall/3 or an if-then-else condition) with G every goal tree of depth <=2 (quick) over {true,fail,X=1,throw(a),!,log} and "
         "{',',;,catch,setup_call_cleanup}, S in {ok, failing, throwing}, Post in {true,!,fail,log,throw,(!,fail)}; "
-        "T3 (thorough): G of depth 3 over a reduced alphabet. A case is one goal. Non-trivial: REF's run catches a "
+        "T3 (thorough): G of depth 3 over a reduced alphabet; T4: balls containing attributed variables (dif/2, "
+        "freeze/2, put_atts/2, a two-variable dif) in 4 ball shapes, constraint posted before or inside the catch/3, "
+        "thrown directly, past a non-matching catch/3 or out of setup_call_cleanup/3, probes on the copy and on the "
+        "original (forbidden/allowed binding, wake-up, attribute read, independence) after or inside the recovery. "
+        "A case is one goal. Non-trivial: REF's run catches a "
         "ball, or a ball passes a non-matching catch/3 or a pending cleanup, or a cleanup runs.")
 LEVEL_TEXT = ("exhaustive within the stated nesting bound; answers, ball and the complete side-effect log are compared "
               "with an independent interpreter, and the exactly-once cleanup invariant is checked without it")
-ASSUMPTIONS = ["REF implements ISO 7.8.9/7.8.10 (catch/throw, ball copied, bindings undone) and the documented "
+ASSUMPTIONS = ["T4 expectations: the catcher receives a copy that carries the constraints of the ball's attributed "
+               "variables (as copy_term/2 does); constraints posted inside the catch/3 goal are undone by the unwinding",
+               "REF implements ISO 7.8.9/7.8.10 (catch/throw, ball copied, bindings undone) and the documented "
                "setup_call_cleanup/3 semantics (cleanup at deterministic exit, failure, exception, cut)",
                "goals inside setup_call_cleanup/3 are restricted to forms whose determinism does not depend on indexing",
                "driver transport; assertz/1 as the logging side effect"]
 MIN_OUTCOMES = 5
 
-HELPER_TEXT = ":- dynamic(logged/1).\nlog(K) :- assertz(logged(K)).\n"
+HELPER_TEXT = (":- use_module(library(dif)).\n:- use_module(library(freeze)).\n:- use_module(library(atts)).\n"
+               ":- attribute a/1.\nverify_attributes(_, _, []).\n"
+               ":- dynamic(logged/1).\nlog(K) :- assertz(logged(K)).\n")
 HELPER_CLAUSES = [(":-", ("log", V("K")), ("assertz", ("logged", V("K"))))]
 
 X, Y, Z, T = V("X"), V("Y"), V("Z"), V("T")
@@ -187,8 +195,140 @@ def t3_goals(tier):
     return t2_goals(tier, depth=3, leaves=G_LEAVES_T3, all_setups=False)
 
 
+# ---------------------------------------------------------------------------
+# family T4: balls that contain attributed variables (dif/2, freeze/2, put_atts/2).  The catcher
+# is unified with a COPY of the ball: the copy must still carry the constraint, the original
+# variable keeps its own (if it was posted before the catch/3; it is undone if posted inside),
+# and the two are independent.  The expectation is computed directly from the case parameters.
+
+W = V("W")
+Y2 = V("Y2")
+T4_KINDS = {
+    # kind: (constraint on X, ball shapes [(ball, catcher)], probes {name: (goal builder, expected R, expected log)})
+    "dif": (("dif", X, "a"), [(("ball", X), ("ball", Y)), (("f", ("g", X)), ("f", ("g", Y))),
+                               (mklist([X], "t"), mklist([Y], "t")), (("p", X, X), ("p", Y, V("_P")))]),
+    "freeze": (("freeze", X, log(("w", X))), [(("ball", X), ("ball", Y)), (("f", ("g", X)), ("f", ("g", Y))),
+                                              (mklist([X], "t"), mklist([Y], "t")), (("p", X, X), ("p", Y, V("_P")))]),
+    "atts": (("put_atts", X, ("a", 1)), [(("ball", X), ("ball", Y)), (("f", ("g", X)), ("f", ("g", Y))),
+                                          (mklist([X], "t"), mklist([Y], "t")), (("p", X, X), ("p", Y, V("_P")))]),
+    "dif2": (("dif", X, W), [(("ball2", X, W), ("ball2", Y, Y2)), (mklist([X, W]), mklist([Y, Y2]))]),
+}
+RV = V("R")
+
+
+def _flag(cond):
+    return (";", ("->", cond, ("=", RV, "bound")), ("=", RV, "blocked"))
+
+
+def t4_probe(kind, probe, pre):
+    """-> (probe goal, expected R, expected log entries)"""
+    if kind == "dif":
+        return {
+            "copy_forbidden": (_flag(("=", Y, "a")), "blocked", []),
+            "copy_allowed": (_flag(("=", Y, "b")), "bound", []),
+            "orig_forbidden": (_flag(("=", X, "a")), "blocked" if pre else "bound", []),
+            "copy_then_orig": ((",", ("=", Y, "b"), _flag(("=", X, "a"))), "blocked" if pre else "bound", []),
+            "independent": ((";", ("->", (",", ("=", Y, "b"), ("var", X)), ("=", RV, "indep")), ("=", RV, "aliased")), "indep", []),
+        }[probe]
+    if kind == "freeze":
+        return {
+            "copy_bind": ((",", ("=", Y, 1), ("=", RV, "done")), "done", [("w", 1)]),
+            "orig_bind": ((",", ("=", X, 2), ("=", RV, "done")), "done", [("w", 2)] if pre else []),
+            "both": ((",", ("=", Y, 1), (",", ("=", X, 2), ("=", RV, "done"))), "done", [("w", 1)] + ([("w", 2)] if pre else [])),
+            "none": (("=", RV, "done"), "done", []),
+        }[probe]
+    if kind == "atts":
+        def get(v):
+            return (";", ("->", ("get_atts", v, ("a", V("_V"))), ("=", RV, ("has", V("_V")))), ("=", RV, "none"))
+        return {
+            "copy_get": (get(Y), ("has", 1), []),
+            "orig_get": (get(X), ("has", 1) if pre else "none", []),
+        }[probe]
+    if kind == "dif2":
+        return {
+            "copy_equal": (_flag(("=", Y, Y2)), "blocked", []),
+            "copy_distinct": (_flag((",", ("=", Y, 1), ("=", Y2, 2))), "bound", []),
+            "orig_equal": (_flag(("=", X, W)), "blocked" if pre else "bound", []),
+        }[probe]
+    raise KeyError(kind)
+
+
+T4_PROBES = {"dif": ["copy_forbidden", "copy_allowed", "orig_forbidden", "copy_then_orig", "independent"],
+             "freeze": ["copy_bind", "orig_bind", "both", "none"], "atts": ["copy_get", "orig_get"],
+             "dif2": ["copy_equal", "copy_distinct", "orig_equal"]}
+T4_WRAPS = ["plain", "nomatch", "scc"]
+
+
+def t4_cases():
+    for kind in ("dif", "freeze", "atts", "dif2"):
+        for si in range(len(T4_KINDS[kind][1])):
+            for probe in T4_PROBES[kind]:
+                for pre in (True, False):
+                    for wrap in T4_WRAPS:
+                        for in_recovery in (False, True):
+                            yield {"fam": "T4", "kind": kind, "shape": si, "probe": probe, "pre": pre, "wrap": wrap,
+                                   "in_recovery": in_recovery}
+
+
+def t4_build(c):
+    """-> (goal, expected R, expected log)"""
+    con, shapes = T4_KINDS[c["kind"]]
+    ball, catcher = shapes[c["shape"]]
+    pg, exp_r, exp_log = t4_probe(c["kind"], c["probe"], c["pre"])
+    th = ("throw", ball)
+    if c["wrap"] == "nomatch":
+        th = ("catch", th, "nomatch", "true")
+    elif c["wrap"] == "scc":
+        th = ("setup_call_cleanup", "true", th, log("c"))
+        exp_log = ["c"] + exp_log
+    inside = th if c["pre"] else (",", con, th)
+    if c["in_recovery"]:
+        goal = ("catch", inside, catcher, pg)
+    else:
+        goal = (",", ("catch", inside, catcher, "true"), pg)
+    if c["pre"]:
+        goal = (",", con, goal)
+    return goal, exp_r, exp_log
+
+
+def judge_t4(c, r_goal, r_log):
+    goal, exp_r, exp_log = t4_build(c)
+    exp = {"R": terms.show(exp_r), "solutions": 1, "log": [terms.show(x) for x in exp_log]}
+    obs_r = [terms.show(d.get("R")) for d in r_goal.sols]
+    if r_log.status == "done" and len(r_log.sols) == 1:
+        obs_log = [terms.show(x) for x in terms.unlist(r_log.sols[0]["L"])[0]]
+    else:
+        obs_log = None
+    st = r_goal.abn or (("exc:" + px.formal_sig(r_goal.formal())) if r_goal.status == "exc" else r_goal.status)
+    obs = {"R": obs_r, "status": st, "log": obs_log}
+    sig = None
+    tag = "%s/%s %s" % (c["kind"], c["probe"], "pre" if c["pre"] else "inside")
+    if st != "done" or len(obs_r) != 1:
+        sig = "T4 %s: status %s, %d solutions" % (tag, st, len(obs_r))
+    elif obs_r[0] != exp["R"]:
+        sig = "T4 %s: R=%s expected %s" % (tag, obs_r[0], exp["R"])
+    elif obs_log != exp["log"]:
+        sig = "T4 %s: log differs" % tag
+    lab = "T4 %s R=%s" % (c["kind"], exp["R"])
+    return lab, sig, goal, exp, obs
+
+
+def run_t4(w, cases, acc):
+    texts = []
+    for c in cases:
+        texts.append("g(%s)" % fmt(t4_build(c)[0]))
+        texts.append(LOG_GOAL)
+    rs = px.run_goals(w, texts)
+    for i, c in enumerate(cases):
+        lab, sig, goal, exp, obs = judge_t4(c, rs[2 * i], rs[2 * i + 1])
+        smp = {"goal": fmt(goal), "expected": exp, "observed": obs} if len(acc.samples) < 3 else None
+        acc.case(True, lab, sample=smp)
+        if sig:
+            acc.violation(sig, dict(c, goal_text=fmt(goal)), expected=exp, observed=obs)
+
+
 def shards(tier):
-    sh = [("T1", k, 8) for k in range(8)] + [("T2", k, 16) for k in range(16)]
+    sh = [("T1", k, 8) for k in range(8)] + [("T2", k, 16) for k in range(16)] + [("T4", 0, 1)]
     if tier == "thorough":
         sh += [("T3", k, 96) for k in range(96)]
     return sh
@@ -321,6 +461,10 @@ def run_goals(w, goals, acc, fam):
 def run_shard(w, shard, tier):
     acc = px.ShardAcc()
     px.run_goals(w, [LOG_GOAL])
+    if shard[0] == "T4":
+        for batch in px.chunked(t4_cases(), 200):
+            run_t4(w, batch, acc)
+        return acc.result()
     for batch in px.chunked(goals_of(shard, tier), 200):
         run_goals(w, batch, acc, shard[0])
     return acc.result()
@@ -329,6 +473,13 @@ def run_shard(w, shard, tier):
 def recheck(w, case, tier):
     acc = px.ShardAcc()
     px.run_goals(w, [LOG_GOAL])
+    if case.get("fam") == "T4":
+        c = {k: case[k] for k in ("fam", "kind", "shape", "probe", "pre", "wrap", "in_recovery")}
+        run_t4(w, [c], acc)
+        if acc.violations:
+            v = acc.violations[0]
+            return {"sig": v["sig"], "case": case, "expected": v["expected"], "observed": v["observed"]}
+        return None
     run_goals(w, [S.dec(case["goal"])], acc, case["fam"])
     if acc.violations:
         v = acc.violations[0]
